@@ -421,6 +421,11 @@ impl VirtualSystem {
                 {
                     return Err(Errno::ENOTDIR);
                 }
+                if matches!(access, OfdAccess::WriteOnly | OfdAccess::ReadWrite)
+                    && matches!(inode.borrow().body, FileBody::Directory { .. })
+                {
+                    return Err(Errno::EISDIR);
+                }
                 if flags.contains(OpenFlag::Truncate)
                     && let FileBody::Regular { content, .. } = &mut inode.borrow_mut().body
                 {
@@ -1634,6 +1639,32 @@ mod tests {
     use std::sync::Arc;
     use std::task::Context;
     use std::task::Poll::{Pending, Ready};
+
+    #[test]
+    fn open_directory_for_writing() {
+        let system = VirtualSystem::new();
+        let result = system
+            .open(
+                c"/tmp",
+                OfdAccess::WriteOnly,
+                EnumSet::empty(),
+                Mode::empty(),
+            )
+            .now_or_never()
+            .unwrap();
+        assert_eq!(result, Err(Errno::EISDIR));
+
+        let result = system
+            .open(
+                c"/tmp",
+                OfdAccess::ReadWrite,
+                OpenFlag::Create.into(),
+                Mode::ALL_9,
+            )
+            .now_or_never()
+            .unwrap();
+        assert_eq!(result, Err(Errno::EISDIR));
+    }
 
     #[test]
     fn fstatat_non_existent_file() {
